@@ -8,7 +8,7 @@ import z3
 
 from . import sym
 from .interp import Interp
-from .sym import (PathBudget, PathCtx, PathInfeasible, PyExc, SBool, SInt, Unsupported, tb, tz, wrap)
+from .sym import (PathBudget, PathCtx, PathEnd, PathInfeasible, PyExc, SBool, SInt, Unsupported, tb, tz, wrap)
 
 REGISTRY: dict[str, "FuncSpec"] = {}
 import os as _os
@@ -175,6 +175,7 @@ class RunResult:
         self.cfg = cfg
         self.obs: dict[str, ObAgg] = {}
         self.paths = 0
+        self.scoped_paths = 0
         self.infeasible = 0
         self.undecided = []  # reasons (Unsupported / budget)
         self.assumptions = set()
@@ -187,7 +188,8 @@ class RunResult:
 
     def as_dict(self):
         return dict(
-            spec=self.spec_name, target=self.target, cfg=self.cfg, paths=self.paths, infeasible=self.infeasible,
+            spec=self.spec_name, target=self.target, cfg=self.cfg, paths=self.paths, scoped_paths=self.scoped_paths,
+            infeasible=self.infeasible,
             undecided=self.undecided[:10], assumptions=sorted(self.assumptions), canaries=self.canaries,
             cover=self.cover, wall_s=round(self.wall_s, 3), solver_s=round(self.solver_s, 3), errors=self.errors[:5],
             outcomes=self.outcomes, obligations=[o.as_dict() for o in self.obs.values()],
@@ -216,20 +218,20 @@ def _add(res: RunResult, ob, trace, cfg):
 def verify(spec: FuncSpec, cfg: dict, tier="quick", exclude=()) -> RunResult:
     res = RunResult(spec, cfg)
     t0 = time.time()
-    work = [[]]
+    work = [([], None)]
     timeout_ms = spec.timeout_ms if tier == "quick" else max(spec.timeout_ms, 120000)
     canary_seen = {}
     while work:
         if res.paths >= spec.max_paths:
             res.undecided.append(f"path budget {spec.max_paths} exhausted")
             break
-        prefix = work.pop()
+        prefix, end_scope = work.pop()
         if _PROGRESS and res.paths % 20 == 0:
             print(f"[progress] {spec.name} {cfg} paths={res.paths} pending={len(work)} t={time.time()-t0:.1f}s solver={res.solver_s:.1f}", flush=True)
         if time.time() - t0 > spec.max_seconds * (1 if tier == "quick" else 6):
             res.undecided.append(f"time budget {spec.max_seconds}s exhausted after {res.paths} paths")
             break
-        ctx = PathCtx(prefix, timeout_ms=timeout_ms, max_decisions=spec.max_decisions)
+        ctx = PathCtx(prefix, timeout_ms=timeout_ms, max_decisions=spec.max_decisions, end_scope=end_scope)
         sym.set_cur(ctx)
         outcome = None
         try:
@@ -274,6 +276,8 @@ def verify(spec: FuncSpec, cfg: dict, tier="quick", exclude=()) -> RunResult:
             res.paths += 1
         except PathInfeasible:
             res.infeasible += 1
+        except PathEnd:
+            res.scoped_paths += 1
         except Unsupported as u:
             res.paths += 1
             res.undecided.append(f"unsupported: {u}")
